@@ -258,3 +258,64 @@ Section Drain.
   Proof. intros _ Hs Hn He. cbn. rewrite Hs, Hn, He, N.eqb_refl. discriminate. Qed.
 End Drain.
 
+
+(* ---- the outcome predicate of the correspondence check accepts every outcome of the model ----
+   (zero tolerance: band = slack = 0; the tolerances only widen it) *)
+
+Lemma done_stops_le l nw t0 :
+  Forall (req_ok nw t0) l -> all_done l = true -> t0 + maxstop l <= N.max nw t0.
+Proof.
+  unfold maxstop, all_done. induction 1 as [|r l Hr Hf IH]; cbn [map maxl forallb]; intros Ha; [lia|].
+  apply andb_true_iff in Ha as [Ha1 Ha2]. destruct Hr as [_ H2]. specialize (H2 Ha1). specialize (IH Ha2). lia.
+Qed.
+
+Lemma flags_ok_true drain t l :
+  all_done l = true -> flags_ok drain 0 t 0 true (map q_stop l) (map q_done l) = true.
+Proof.
+  unfold all_done. induction l as [|r l IH]; cbn [map flags_ok forallb]; [reflexivity|].
+  intros Ha. apply andb_true_iff in Ha as [Ha1 Ha2]. rewrite Ha1, (IH Ha2). reflexivity.
+Qed.
+
+Lemma flags_ok_timeout drain t0 l :
+  Forall (req_ok (t0 + drain) t0) l -> Forall (short_done drain) l ->
+  flags_ok drain 0 drain 0 false (map q_stop l) (map q_done l) = true.
+Proof.
+  intros Hf Hs. induction l as [|r l IH]; cbn [map flags_ok]; [reflexivity|].
+  inversion Hf as [|? ? Hr Hf']; subst. inversion Hs as [|? ? Hsr Hs']; subst.
+  rewrite (IH Hf' Hs'), andb_true_r. rewrite !N.add_0_r. apply andb_true_iff. split.
+  - destruct (q_stop r <? drain) eqn:E; [|reflexivity]. apply N.ltb_lt in E. exact (Hsr E).
+  - destruct (drain <? q_stop r) eqn:E; [|reflexivity]. apply N.ltb_lt in E.
+    destruct Hr as [_ H2]. destruct (q_done r) eqn:Ed; [|reflexivity]. specialize (H2 eq_refl). lia.
+Qed.
+
+Theorem drain_check_sound drain gap ls s l s' t0 :
+  run (dstep drain gap) dinit ls = Some s -> sd_start s = Some t0 ->
+  dstep drain gap s l = Some s' -> (l = DShutRetOk \/ l = DShutRetTimeout) ->
+  drain_check drain gap 0 0 (map q_stop (reqs s'))
+              (match l with DShutRetOk => true | _ => false end) (now s' - t0) (map q_done (reqs s')) = true.
+Proof.
+  intros Hr Hs Hstep Hl.
+  pose proof (dinv_reachable drain gap ls s Hr) as I.
+  pose proof (dinv_step drain gap s l s' I Hstep) as I'.
+  destruct (d_start _ _ _ I t0 Hs) as (A & B & C).
+  unfold drain_check. fold (maxstop (reqs s')). rewrite !N.add_0_r.
+  destruct Hl as [-> | ->]; cbn [HttpDrain.dstep] in Hstep; rewrite Hs in Hstep;
+    destruct (sd_ret s) eqn:Er; try discriminate.
+  - destruct (all_done (reqs s) && (now s <=? t0 + drain)) eqn:Eg; [|discriminate]. injection Hstep as <-.
+    cbn [reqs now]. apply andb_true_iff in Eg as [Ea Ele]. apply N.leb_le in Ele.
+    destruct (d_pending _ _ _ I t0 Hs Er) as (_ & P2). specialize (P2 Ea).
+    pose proof (done_stops_le _ _ _ B Ea) as Hd. rewrite N.max_l in Hd by lia.
+    assert (P3 : now s <= t0 + maxstop (reqs s) + gap)
+      by (destruct (N.max_spec t0 (last_done s)) as [[_ E]|[_ E]]; rewrite E in P2; lia).
+    rewrite (flags_ok_true drain _ _ Ea), andb_true_r.
+    apply andb_true_iff. split; [apply andb_true_iff; split|]; apply N.leb_le.
+    + lia.
+    + destruct (N.min_spec (maxstop (reqs s) + gap) drain) as [[_ E]|[_ E]]; rewrite E; lia.
+    + lia.
+  - destruct (now s =? t0 + drain) eqn:Eg; [|discriminate]. injection Hstep as <-. apply N.eqb_eq in Eg.
+    cbn [reqs now]. rewrite Eg. replace (t0 + drain - t0) with drain by lia.
+    destruct (d_ret _ _ _ I' t0 (now s) false) as (_ & _ & _ & D & _ & F); [reflexivity|reflexivity|].
+    destruct (F eq_refl) as (_ & Hge). cbn [reqs] in D, Hge.
+    rewrite Eg in B. rewrite (flags_ok_timeout drain t0 _ B D), andb_true_r.
+    apply andb_true_iff. split; [apply andb_true_iff; split|]; apply N.leb_le; lia.
+Qed.
